@@ -28,13 +28,13 @@ theorem MarkRel.of_upd (s : State) (id : Nat) (g : Node → Node)
   log h := h
   logx := LogExt.of_eq rfl
 
-theorem MarkRel.emit {s : State} {e : Ev} (he : QuietEv e) : MarkRel s (s.emit e) where
+theorem MarkRel.emit {s : State} {e : Ev} (he : WokeEv e) : MarkRel s (s.emit e) where
   len := rfl
   obs := rfl
   core _ := rfl
   rank _ := Nat.le_refl _
   notMemo _ _ := rfl
-  log h := h.emit he.1
+  log h := h.emit he.quiet.1
   logx := LogExt.emit he
 
 theorem notify_rel (s : State) (id : Nat) : MarkRel s (notify s id) := by
@@ -45,7 +45,7 @@ theorem notify_rel (s : State) (id : Nat) : MarkRel s (notify s id) := by
       (Nat.le_refl _) (fun _ => rfl)
     simp only
     split
-    · exact h1.trans (MarkRel.emit ⟨by intro i; simp, by intro i; simp⟩)
+    · exact h1.trans (MarkRel.emit ⟨_, rfl⟩)
     · exact h1
 
 theorem notify_st (s : State) (id i : Nat) : ((notify s id).get i).st = (s.get i).st := by
